@@ -93,6 +93,19 @@ inline Val binop(State &S, unsigned opc, Val a, Val b, int &needConcr) {
     i128 k = b.rk + ap2i(a.constVal(), !S.roots[b.root].isUnsigned);
     if (linkFits(S, b.root, k, w)) { Val r = Val::top(w, prov); r.root = b.root; r.rk = k; tighten(S, r); return r; }
   }
+  if (opc == Instruction::Sub && a.isConst() && b.root >= 0 && !b.isConst()) {
+    // c - (root + k)  ==  (c - k) - root
+    csToRange(a); 
+    Val r = mkInt(w, a.r.sub(b.r), KnownBits(w), prov);
+    r.croot = b.root; r.ck = ap2i(a.constVal(), false) - b.rk;
+    return r;
+  }
+  if ((opc == Instruction::Add || opc == Instruction::Sub) && b.isConst() && a.croot >= 0) {
+    Val r = mkInt(w, opc == Instruction::Add ? a.r.add(b.r) : a.r.sub(b.r), KnownBits(w), prov);
+    i128 c = ap2i(b.constVal(), b.constVal().isNegative() && w == 64 ? true : false);
+    r.croot = a.croot; r.ck = a.ck + (opc == Instruction::Add ? c : -c);
+    return r;
+  }
   // concretise small linked operands for non-linear ops
   bool nonlinear = !(opc == Instruction::Add || opc == Instruction::Sub);
   if (nonlinear) {
